@@ -152,3 +152,25 @@ def _lines(s):
 def strip_sgr(s):
     import re
     return re.sub(r'\x1b\[[0-9;]*m', '', s)
+
+
+def exc_violation(case, kind='exception', extra=None):
+    """Call inside `except Exception:`.  An exception raised by the code under test
+    (innermost non-library frame inside the repository) is a violation - the expected
+    observation was not produced; an exception raised by the harness itself is a
+    harness error and is re-raised."""
+    import traceback
+    from .report import Violation
+    et, ev, tb = sys.exc_info()
+    repo = os.path.realpath(REPO) + os.sep
+    verif = os.path.realpath(VERIF) + os.sep
+    for fr in reversed(traceback.extract_tb(tb)):
+        f = os.path.realpath(fr.filename)
+        if f.startswith(repo):
+            d = {'exception': '%s: %s' % (et.__name__, str(ev)[:300]), 'traceback': traceback.format_exc()[-1500:]}
+            if extra:
+                d.update(extra)
+            return Violation(kind, case, d)
+        if f.startswith(verif):
+            raise
+    raise
